@@ -109,7 +109,7 @@ func c13ChainRun(in *c13Chain, env *Env) *Failure {
 		for l := 0; l < in.Depth; l++ {
 			for k := 0; k < 3; k++ {
 				if hasInit(l, k) {
-					chain[l].SetValue(c13Key(k), initVal(l, k))
+					chain[l].SetValue(c13K(k), initVal(l, k))
 				}
 			}
 		}
@@ -135,7 +135,7 @@ func c13ChainRun(in *c13Chain, env *Env) *Failure {
 						case "r":
 							seq++
 							ev := c13ChainEv{level: level, key: s.Key, call: seq, task: ti}
-							v := target.Value(c13Key(s.Key))
+							v := target.Value(c13K(s.Key))
 							if v == nil {
 								ev.isNil = true
 							} else {
@@ -147,7 +147,7 @@ func c13ChainRun(in *c13Chain, env *Env) *Failure {
 						case "w":
 							seq++
 							ev := c13ChainEv{write: true, level: level, key: s.Key, val: s.Val, call: seq, task: ti}
-							target.SetValue(c13Key(s.Key), s.Val)
+							target.SetValue(c13K(s.Key), s.Val)
 							seq++
 							ev.ret = seq
 							evs = append(evs, ev)
